@@ -12,7 +12,8 @@ from TidalPy.utilities.multiprocessing import multiprocessing_run, Multiprocessi
 import c18_study
 n1, n2 = cfg['grid']
 mk = list if cfg['must_kind'] == 'list' else tuple
-inputs = (MultiprocessingInput('x', 'X value', 1.0, float(n1), 'linear', mk([]), n1), MultiprocessingInput('y', 'Y value', 1.0, float(n2), 'linear', mk([1.5]), n2))
+X0, Y0, DX, DY, MUST = cfg.get('limits', [1.0, 1.0, 0.0, 0.0, 1.5])
+inputs = (MultiprocessingInput('x', 'X value', X0, float(n1) + DX, 'linear', mk([]), n1), MultiprocessingInput('y', 'Y value', Y0, float(n2) + DY, 'linear', mk([MUST]), n2))
 sdir = os.path.join(td, 'study')
 out = {'restart_exception': None}
 open(os.path.join(cdir, 'PHASE'), 'w').write('1')
@@ -42,7 +43,7 @@ try:
 except BaseException as e:
     out['restart_exception'] = '%s: %s' % (type(e).__name__, str(e)[:150])
     r2 = None
-xs = list(np.linspace(1.0, float(n1), n1)); ys = sorted(set(list(np.linspace(1.0, float(n2), n2)) + [1.5]))
+xs = list(np.linspace(X0, float(n1) + DX, n1)); ys = sorted(set(list(np.linspace(Y0, float(n2) + DY, n2)) + [MUST]))
 want = {(i, j): xs[i] * 1000.0 + ys[j] for i in range(len(xs)) for j in range(len(ys))}
 seen = {}
 caseno_wrong, value_wrong = [], []
